@@ -249,6 +249,54 @@ Section KV.
     end.
 End KV.
 
+(* ---- clientmanager.go / clustermanager.go: one go-redis client per address ----
+   getClient(r): clientManager.Get(r.Addr, create) -- the resource manager returns the client cached under
+   r.Addr or runs `create`, which builds the client from a FRESH options literal filled from r.  The options
+   a client dials with are therefore values captured at its creation. *)
+Record rinst := mkrinst { i_addr : string; i_pass : string; i_tls : bool }.     (* the fields of *Redis that matter *)
+Record copts := mkopts { o_addr : string; o_pass : string; o_tls : bool }.      (* red.Options of a client *)
+Definition cmgr := list (string * copts).                                       (* syncx.ResourceManager: key |-> client *)
+
+Definition new_client (r : rinst) : copts := mkopts (i_addr r) (i_pass r) (i_tls r).   (* clientmanager.go:26-33 *)
+
+Definition cm_get (m : cmgr) (r : rinst) : cmgr * copts :=                      (* resourcemanager.go Get *)
+  match alookup String.eqb (i_addr r) m with
+  | Some c => (m, c)
+  | None => ((i_addr r, new_client r) :: m, new_client r)
+  end.
+
+Section Net.
+  Variables S Cmd R : Type.
+  Variable exec1 : S -> Cmd -> S * R.
+  Definition net := string -> S.                                                (* address |-> server *)
+
+  (* a command on a client goes to the address in the client's options -- also when it has to re-dial *)
+  Definition send (n : net) (c : copts) (cmd : Cmd) : net * R :=
+    let '(s', x) := exec1 (n (o_addr c)) cmd in
+    ((fun a => if String.eqb a (o_addr c) then s' else n a), x).
+
+  (* one wrapper call: getRedis(r) then the command on that node *)
+  Definition wcall (st : cmgr * net) (r : rinst) (cmd : Cmd) : (cmgr * net) * R :=
+    let '(m', c) := cm_get (fst st) r in
+    let '(n', x) := send (snd st) c cmd in ((m', n'), x).
+
+  Fixpoint wcalls (st : cmgr * net) (h : list (rinst * Cmd)) : (cmgr * net) * list R :=
+    match h with
+    | [] => (st, [])
+    | (r, cmd) :: t => let '(st1, x) := wcall st r cmd in let '(st2, xs) := wcalls st1 t in (st2, x :: xs)
+    end.
+End Net.
+Arguments send {S Cmd R} exec1 n c cmd.
+Arguments wcall {S Cmd R} exec1 st r cmd.
+Arguments wcalls {S Cmd R} exec1 st h.
+
+(* ---- scriptcache.go: script text |-> sha, copy-on-write map behind an atomic.Value ---- *)
+Definition scache := list (string * string).
+Definition sc_get (c : scache) (script : string) : option string := alookup String.eqb script c.   (* GetSha *)
+Definition sc_set (c : scache) (script sha : string) : scache := aset String.eqb script sha c.     (* SetSha: copy, then newCache[script] = sha *)
+Definition sc_run (c : scache) (h : list (string * string)) : scache :=
+  fold_left (fun m p => sc_set m (fst p) (snd p)) h c.
+
 Arguments upd {N} cl i n.
 Arguments kv_step {N K A R} node_run owner cl k a.
 Arguments kv_each {N K A R} node_run owner cl ks a.
